@@ -960,3 +960,59 @@ def geom_entity(repo, res):
                 ok = var is not None and re.search(rf"\[{var} \* \w+ \+ [^\]]+\]|\[\w+ \* {var} \+ [^\]]+\]", src) is not None
                 if not ok:
                     res.fail(key, f"{f.qualname}: table {tname} is a flat stack of per-{kind} rows; the row index must be {kind} * rows_per_{kind} + row", am.line(f.node))
+
+
+@rule(
+    "GEOM-TABLE-MAPS",
+    ["C04", "C19"],
+    "the integral and the expression generator declare reference-geometry tables from the same map (UFL geometry class -> "
+    "table name); every name is one geometry.write_table knows, and every `<cell>_<name>` table symbol an accessor reads is "
+    "declared by both maps - otherwise an expression using FacetOrientation / CellRidgeJacobian references an undeclared "
+    "identifier and FacetEdgeVectors ends in `Unknown geometry table name`",
+    min_instances=3,
+)
+def geom_table_maps(repo, res):
+    def table_map(modname, q):
+        m = repo.mod(modname)
+        f = m.func(q)
+        res.functions.add(f.key)
+        for n in ast.walk(f.node):
+            if isinstance(n, ast.Assign) and isinstance(n.targets[0], ast.Name) and n.targets[0].id == "ufl_geometry" and isinstance(n.value, ast.Dict):
+                return m, f, {ast.unparse(k).split(".")[-1]: const_value(v) for k, v in zip(n.value.keys, n.value.values)}
+        raise AnalysisError(f"{q}: ufl_geometry map not found")
+
+    mi, fi, a = table_map("ffcx.codegeneration.integral_generator", "IntegralGenerator.generate_geometry_tables")
+    me, fe, b = table_map("ffcx.codegeneration.expression_generator", "ExpressionGenerator.generate_geometry_tables")
+    key = "generators:geometry-maps-agree"
+    res.ob(key)
+    if a != b:
+        only_a = {k: v for k, v in a.items() if b.get(k) != v}
+        only_b = {k: v for k, v in b.items() if a.get(k) != v}
+        res.fail(key, f"geometry table maps differ: integral generator has {only_a}, expression generator has {only_b}: an expression using these quantities gets "
+                 "no table declaration (undeclared identifier in the generated C) or an unknown table name", me.line(fe.node))
+    gm = repo.mod("ffcx.codegeneration.geometry")
+    wt = gm.func("write_table")
+    known = {const_value(n.comparators[0]) for n in ast.walk(wt.node) if isinstance(n, ast.Compare) and isinstance(n.comparators[0], ast.Constant)
+             and isinstance(n.comparators[0].value, str)}
+    key = "generators:geometry-names-known"
+    res.ob(key)
+    for nm, mp, mod_, f_ in (("integral", a, mi, fi), ("expression", b, me, fe)):
+        bad = sorted(set(mp.values()) - known)
+        if bad:
+            res.fail(key, f"{nm} generator asks geometry.write_table for {bad}, which it does not know (ValueError at code generation)", mod_.line(f_.node))
+    am = repo.mod("ffcx.codegeneration.access")
+    read = set()
+    for q, f in am.funcs.items():
+        for n in ast.walk(f.node):
+            if isinstance(n, ast.JoinedStr):
+                t = "".join(v.value if isinstance(v, ast.Constant) else "{}" for v in n.values)
+                mm = re.fullmatch(r"\{\}_(\w+)", t)
+                if mm and mm.group(1) in known:
+                    read.add(mm.group(1))
+    key = "generators:accessed-tables-declared"
+    res.ob(key)
+    for nm, mp, mod_, f_ in (("integral", a, mi, fi), ("expression", b, me, fe)):
+        missing = sorted(read - set(mp.values()))
+        if missing:
+            res.fail(key, f"accessors read the tables {missing} but the {nm} generator never declares them: the generated C references an undeclared identifier",
+                     mod_.line(f_.node))
